@@ -67,5 +67,8 @@ func (f *NoApplicableMethod) Call(s *slip.Scope, args slip.List, depth int) slip
 type defaultNoAppMethCaller struct{}
 
 func (defaultNoAppMethCaller) Call(s *slip.Scope, args slip.List, depth int) slip.Object {
+	if len(args) < 1 {
+		slip.ErrorPanic(s, depth, "Too few arguments to no-applicable-method. At least 1 expected but got 0.")
+	}
 	panic(slip.NoApplicableMethodErrorNew(s, depth, args[0], args[1:], ""))
 }
